@@ -182,6 +182,24 @@ impl AggregateExecutionEngine {
                         }
                         _ => { unimplemented!(); }
                     };
+
+                    // Non-numeric types (text, timestamp, ...) are compared using the value order of the type
+                    let is_numeric = match column_value {
+                        Value::Int(_) | Value::Float(_) | Value::Interval(_) => true,
+                        _ => false
+                    };
+
+                    if !is_numeric {
+                        let replace = group_value.is_null() || match aggregate {
+                            Aggregate::Min(_) => column_value < *group_value,
+                            Aggregate::Max(_) => column_value > *group_value,
+                            _ => false
+                        };
+
+                        if replace {
+                            *group_value = column_value.clone();
+                        }
+                    }
                 } else {
                     self.get_group_value(group_key.clone(), aggregate_index, || Ok(Value::Null))?;
                 }
